@@ -33,6 +33,7 @@ import (
 	"encoding/json"
 	"fmt"
 	"math"
+	"math/big"
 	"sort"
 	"strings"
 
@@ -105,11 +106,11 @@ func valFloatSx(x float64) *Sx {
 		e--
 	}
 	if e < 0 {
-		if -e > 10 || m > (1<<52) || m < -(1<<52) {
+		if -e > 80 {
 			return T("fbad", S(fmt.Sprint(x)))
 		}
-		m <<= uint(-e)
-		e = 0
+		big := new(big.Int).Lsh(big.NewInt(m), uint(-e))
+		return T("f", A(big.String()), N(0))
 	}
 	if e > 1000 {
 		return T("fbad", S(fmt.Sprint(x)))
